@@ -10,6 +10,7 @@ corpus/C07/refused-then-driver.case.)
 -/
 import NV.C07.Model
 import NV.C07.Compress
+import NV.C07.Binary
 
 namespace NV.C07.Witness
 
@@ -88,5 +89,30 @@ theorem old_compress_overflow_branch_loses_entries :
     (compressG true wideTab).bind (fun c => findFuncEntry wideTab.inherit c 0) = some (.inh 1 0) ∧
     (compressG true wideTab).bind (fun c => findFuncEntry wideTab.inherit c 300) = some (.inh 1 40) := by
   decide +kernel
+
+/-! ### sort_function_table with `temp[oldix]` instead of `inverse[oldix]` (a seeded change the check first missed) -/
+
+/-- the fix-up written with the sort permutation itself instead of its inverse -/
+def permuteBad (P : Program) (order : List Nat) : Program :=
+  { P with
+    ft := order.filterMap (fun i => P.ft[i]?),
+    rt := (P.flags.zip P.rt).map fun x =>
+      if hasBit x.1 nameInherited then x.2
+      else match x.2 with
+        | .defn fi na => .defn (order.getD fi 0) na
+        | e => e }
+
+def P3 : Program :=
+  { id := 1, ft := [{ name := 10, rindex := 0, nameStr := "a" }, { name := 20, rindex := 1, nameStr := "b" },
+                    { name := 30, rindex := 2, nameStr := "c" }],
+    flags := [0, 0, 0], rt := [.defn 0 0, .defn 1 0, .defn 2 0], inherit := [] }
+
+/-- a 3-cycle is not its own inverse: slot 0 (function "a") then denotes another function; a reversal (its own
+    inverse) or the identity hide the mistake — which is why the generator re-creates the names in RANDOM orders -/
+theorem temp_instead_of_inverse_misdispatches :
+    (slotEntry (permuteBad P3 [2, 0, 1]) 0).map (·.nameStr) = some "b" ∧
+    (slotEntry (permuteProgram P3 [2, 0, 1]) 0).map (·.nameStr) = some "a" ∧
+    (slotEntry (permuteBad P3 [2, 1, 0]) 0).map (·.nameStr) = some "a" := by
+  decide
 
 end NV.C07.Witness
